@@ -24,32 +24,12 @@ SG = A + 'user_components::scope_graph::ScopeId::'
 
 
 def r1_lookup_direction(ctx):
-    ctx.rule('C04.R1', 'P2/P3 + sibling agreement: in ConstructibleDb::get and ::get_or_try_bind the lookup in the scope just popped dominates the '
-             'extension of the queue; the queue is extended only with ScopeId::direct_parent_ids (never children); the queue is a FIFO seeded '
-             'with the requesting scope (nearest scope first).')
-    for fn, inner in ((CONS + 'ConstructibleDb::get', CONS + 'ConstructiblesInScope::get'),
-                      (CONS + 'ConstructibleDb::get_or_try_bind', CONS + 'ConstructiblesInScope::get_or_try_bind')):
-        b = ctx.need('C04.R1', fn.replace(CONS, ''), ctx.fb.body('pavexc', fn))
-        if b is None:
-            continue
-        look = [bb for bb, t in b.calls() if callee(t) == inner]
-        ext = [(bb, t) for bb, t in b.calls() if (callee(t) or '').endswith('::extend') and 'VecDeque' in t['aty'][0]]
-        par = [bb for bb, t in b.calls() if callee(t) == SG + 'direct_parent_ids']
-        chi = [bb for bb, t in b.calls() if callee(t) in (SG + 'direct_children_ids', SG + 'descendant_ids', SG + 'children_ids')]
-        pops = [callee(t).split('::')[-1] for bb, t in b.calls() if 'VecDeque' in (t['aty'][0] if t['aty'] else '') and callee(t).split('::')[-1] in ('pop_front', 'pop_back', 'push_front', 'push_back')]
-        defs = Defs(b)
-        ext_from_parents = False
-        for bb, t in ext:
-            pl = op_place(t['args'][1])
-            sl, _ = backward_slice(b, pl['l'], defs)
-            ext_from_parents = (SG + 'direct_parent_ids') in {c for c, _, _ in slice_calls(sl)}
-        # the lookup comes first within an iteration: from the loop's pop to the extension every path passes the scope map lookup
-        maps = [bb for bb, t in b.calls() if (callee(t) or '').split('::')[-1] in ('get', 'get_mut') and any(k in t['aty'][0] for k in ('HashMap', 'IndexMap', 'BTreeMap'))]
-        order = bool(maps) and bool(ext) and all(b.dominates(maps[0], e) for e, _ in ext)
-        ok = bool(look) and bool(ext) and bool(par) and not chi and ext_from_parents and order and set(pops) == {'push_back', 'pop_front'}
-        ctx.ob('C04.R1', 'nearest-scope-first|%s' % fn.split('::')[-1], ok, b.loc(look[0]) if look else b.loc(),
-               'current-scope lookup precedes queue extension: %s; extension source is direct_parent_ids: %s; children consulted: %s; queue discipline: %s'
-               % (order, ext_from_parents, bool(chi), sorted(set(pops))))
+    from .chains_common import scope_lookup_shape
+    ctx.rule('C04.R1', 'P2/P3 + sibling agreement: ConstructibleDb::get and ::get_or_try_bind walk scopes FIFO from the requesting scope, test the '
+             'scope just popped before extending the queue, extend it only with ScopeId::direct_parent_ids (never children), and a miss in a '
+             'scope always continues to its parents (the result of the per-scope lookup is returned only under its Some arm).')
+    scope_lookup_shape(ctx, 'C04.R1', CONS + 'ConstructibleDb::get', CONS + 'ConstructiblesInScope::get')
+    scope_lookup_shape(ctx, 'C04.R1', CONS + 'ConstructibleDb::get_or_try_bind', CONS + 'ConstructiblesInScope::get_or_try_bind')
 
 
 def r2_scopes_and_overrides(ctx):
